@@ -86,6 +86,9 @@ func FaultKinds(rtt time.Duration) []simworld.Action {
 		// retransmitted; a Version Negotiation packet that lists the client's own version must be ignored.
 		{Kind: "flip", Pos: 1},
 		{Kind: "flip", Pos: 7},
+		// a replay long after the original: handshake keys are gone, connection IDs may be retired, a key
+		// update may have happened
+		{Kind: "dup", Delay: 40 * rtt},
 	}
 }
 
